@@ -101,7 +101,7 @@ func (b *progBuilder) step(allowed []int) []int {
 	x := b.pick(allowed)
 	v := b.vals[x]
 	rank := len(v.Shape)
-	switch b.r.Intn(16) {
+	switch b.r.Intn(18) {
 	case 0:
 		b.add(ref.Instr{Op: "scale", In: []int{x}, F: []float64{-1.3, 0.5, 0.9, 1.2, -0.7}[b.r.Intn(5)]})
 	case 1:
@@ -204,6 +204,49 @@ func (b *progBuilder) step(allowed []int) []int {
 		b.add(ref.Instr{Op: "cos", In: []int{x}})
 	case 15:
 		b.add(ref.Instr{Op: "patch", In: []int{x, x}, Index: nil}) // whole-tensor patch of a node into itself (2 edges to one target)
+	case 16: // order statistics and spread along a dimension, only where they are differentiable with a margin
+		if rank >= 1 {
+			dim := b.r.Intn(rank)
+			op := []string{"maxalong", "minalong", "varalong", "stdalong", "avgalong"}[b.r.Intn(5)]
+			if fibresSeparated(v, dim, 1e-2) {
+				b.add(ref.Instr{Op: op, In: []int{x}, Dim: dim})
+				break
+			}
+		}
+		b.add(ref.Instr{Op: "sinh", In: []int{x}, F: 0})
+		if maxAbs(b.vals[len(b.p)-1]) > 50 {
+			b.add(ref.Instr{Op: "tanh", In: []int{len(b.p) - 1}})
+		}
+	case 17: // element-wise extrema of two same-shape nodes (no ties), Log of a positive node, Cosh, Squeeze
+		cands := b.sameShape(allowed, v.Shape, x)
+		switch {
+		case len(cands) > 0 && b.r.Intn(2) == 0:
+			y := cands[b.r.Intn(len(cands))]
+			tie := false
+			for i := range v.Data {
+				tie = tie || math.Abs(v.Data[i]-b.vals[y].Data[i]) < 1e-2
+			}
+			if !tie {
+				b.add(ref.Instr{Op: []string{"elmax", "elmin"}[b.r.Intn(2)], In: []int{x, y}})
+				break
+			}
+			fallthrough
+		default:
+			mn := math.Inf(1)
+			for _, e := range v.Data {
+				mn = math.Min(mn, e)
+			}
+			switch {
+			case mn > 0.05:
+				b.add(ref.Instr{Op: "log", In: []int{x}})
+			case rank >= 1 && v.Shape[rank-1] == 1:
+				b.add(ref.Instr{Op: "squeeze", In: []int{x}, Dim: rank - 1})
+			case maxAbs(v) < 4:
+				b.add(ref.Instr{Op: "cosh", In: []int{x}})
+			default:
+				b.add(ref.Instr{Op: "tan", In: []int{b.add(ref.Instr{Op: "tanh", In: []int{x}})}})
+			}
+		}
 	}
 	// keep magnitudes bounded
 	last := len(b.p) - 1
@@ -273,4 +316,27 @@ func progStats(p ref.Prog, root int) (maxFan, reconv, depth int) {
 		}
 	}
 	return maxFan, reconv, dep[root]
+}
+
+// fibresSeparated: every fibre along dim has pairwise distinct values (gap > eps) - so Max/Min have a unique
+// arg-extremum - and a standard deviation well away from 0 (or a single element).
+func fibresSeparated(v *ref.T, dim int, eps float64) bool {
+	n := v.Shape[dim]
+	inner := 1
+	for _, d := range v.Shape[dim+1:] {
+		inner *= d
+	}
+	outer := len(v.Data) / (n * inner)
+	for o := 0; o < outer; o++ {
+		for in := 0; in < inner; in++ {
+			for a := 0; a < n; a++ {
+				for c := a + 1; c < n; c++ {
+					if math.Abs(v.Data[(o*n+a)*inner+in]-v.Data[(o*n+c)*inner+in]) < eps {
+						return false
+					}
+				}
+			}
+		}
+	}
+	return true
 }
